@@ -1,0 +1,22 @@
+//go:build verif
+
+// Contracts for govc (contract-based deductive verification, see /verif/DESIGN.md).
+// Comment-only file: it adds no code and is compiled only with -tags verif.
+
+package unmarshal
+
+// A span attribute is rendered into the trace JSON from the value it holds: the
+// text of a double attribute is made from its double (not from the integer getter,
+// which answers 0 for a double), that of an integer from its integer, that of a
+// boolean from its boolean.
+//@ func SpanToJSONSpan [C15]
+//@   flag checks=-index,-assert
+//@   at fmt.Sprintf double-from-the-double: typeis(attr.Value.Value, "*v12.AnyValue_DoubleValue") ==> len(arg1) == 1 && typeis(arg1[0], "float64")
+//@   at fmt.Sprintf integer-from-the-integer: typeis(attr.Value.Value, "*v12.AnyValue_IntValue") ==> len(arg1) == 1 && typeis(arg1[0], "int64")
+//@   at fmt.Sprintf boolean-from-the-boolean: typeis(attr.Value.Value, "*v12.AnyValue_BoolValue") ==> len(arg1) == 1 && typeis(arg1[0], "bool")
+//@   loop 1:
+//@     modifies everything
+//@   loop 2:
+//@     modifies everything
+//@   loop 3:
+//@     modifies everything
